@@ -213,6 +213,11 @@ C["C12"]["harnesses"] += [
     H("ZZAcceptPolicy", "internal/btconn", "real btconn.Accept (real mse.HandshakeIncoming underneath) against a peer that dials in cleartext or runs the real mse.HandshakeOutgoing offering plaintext / RC4 / both, force-incoming-encryption on/off, crypto replaced by the algebraic model: forced => accepted only with RC4, a cleartext dial or plaintext-only offer is refused and never answered in cleartext; not forced => cleartext accepted as cleartext, plaintext-only offer selects plaintext, RC4 preferred when offered; reported handshake fields are the peer's; the peer reads the acceptor's handshake unchanged", T(120, 900), T(120, 900), replay="model"),
 ]
 
+C["C11"]["harnesses"] += [
+    H("ZZReaderSlowPiece", "internal/peerconn/peerreader", "a piece message whose 6-byte block arrives slowly - the read deadline expires at up to two arbitrary points inside the block (in-memory connection returning a timeout error at those stream positions) - followed by a have message: the block delivered equals the block sent, the following message is decoded (framing kept); a deadline expiring before any byte of the block drops the peer", T(60, 600), T(60, 600)),
+]
+C["C08"]["harnesses"] += [h for h in C["C11"]["harnesses"] if h["fn"] == "ZZReaderSlowPiece"]
+
 for pid, spec in C.items():
     spec = dict(property=pid, **spec)
     json.dump(spec, open(os.path.join(D, pid + ".json"), "w"), indent=1)
